@@ -95,7 +95,10 @@ def _run_chunk(arg):
         if r.capped:
             agg['capped'] += 1
         if r.nontrivial:
-            keys.add(r.key if r.key is not None else idx)
+            if r.key is not None:
+                keys.add(r.key)
+            else:
+                agg['nontrivial_by_index'] += 1          # case indices are distinct by construction: counted, not stored
         outcomes[r.outcome] += 1
         if r.extra:
             agg.update(r.extra)
@@ -139,6 +142,7 @@ class Ctx(object):
         self.violations = []     # (part, idx, case, detail)
         self.samples = []
         self.nontrivial_keys = set()
+        self.nontrivial_count = 0            # non-trivial cases keyed by their (distinct) index
         self.parts = []          # per-part summaries
         self.coverage_extra = {}
         self.assumptions = []
@@ -204,7 +208,7 @@ class Ctx(object):
             self.exhaustive = False
         summ = dict(part=part, evaluations=agg['evaluations'], transitions=agg['transitions'],
                     capped=agg['capped'], violations_raw=agg['violations_raw'],
-                    distinct_nontrivial=len(keys), complete=complete,
+                    distinct_nontrivial=len(keys) + agg['nontrivial_by_index'], complete=complete,
                     wall_s=round(time.time() - t0, 2), outcomes=dict(outcomes))
         if space_size is not None:
             summ['space_size'] = space_size
@@ -212,13 +216,14 @@ class Ctx(object):
                 raise HarnessError("part %s: enumerated %d cases, computed space size %d"
                                    % (part, agg['evaluations'], space_size))
         extra = {k: v for k, v in agg.items()
-                 if k not in ('evaluations', 'transitions', 'capped', 'violations_raw')}
+                 if k not in ('evaluations', 'transitions', 'capped', 'violations_raw', 'nontrivial_by_index')}
         if extra:
             summ['extra'] = extra
         self.parts.append(summ)
         self.counts.update(agg)
         self.outcomes.update({'%s:%s' % (part, k): v for k, v in outcomes.items()})
         self.nontrivial_keys.update(keys)
+        self.nontrivial_count += agg['nontrivial_by_index']
         for s in samples:
             if len(self.samples) < 12:
                 self.samples.append({'part': part, 'case': s})        # already tagged JSON (encoded in the worker)
@@ -354,13 +359,13 @@ def finish(ctx, mod):
 
 def write_evidence(ctx, matched, n_unmatched):
     cov = {
-        'states': len(ctx.nontrivial_keys) if not ctx.coverage_extra.get('states') else ctx.coverage_extra['states'],
+        'states': (len(ctx.nontrivial_keys) + ctx.nontrivial_count) if not ctx.coverage_extra.get('states') else ctx.coverage_extra['states'],
         'transitions': ctx.counts['transitions'],
         'traces_validated_against_impl': ctx.coverage_extra.get(
             'traces_validated_against_impl', ctx.counts['evaluations']),
         'samples': ctx.samples[:16] or [{'note': 'no samples recorded'}],
         'evaluations': ctx.counts['evaluations'],
-        'distinct_nontrivial': len(ctx.nontrivial_keys),
+        'distinct_nontrivial': (len(ctx.nontrivial_keys) + ctx.nontrivial_count),
         'exhaustive': bool(ctx.exhaustive and not ctx.counts['capped']),
         'capped': ctx.counts['capped'],
         'parts': ctx.parts,
